@@ -63,7 +63,7 @@ type c09Cell struct {
 }
 
 func (c *c09Cell) key() string {
-	return fmt.Sprintf("%s|e%d|%s|%s|%s|%s|%s|%s|%s|%s", c.Scheme, c.Epoch, c.Type, c.Sender, c.Key, c.Variant, c.Victim, c.Mut, c.Stale, c.Chain)
+	return fmt.Sprintf("%s|e%d|%s|%s|%s|%s|%s|%s|%s|%d|%d|%s|%s", c.Scheme, c.Epoch, c.Stage, c.Type, c.Sender, c.Key, c.Variant, c.Victim, c.Mut, c.I, c.J, c.Stale, c.Chain)
 }
 
 type c09Group struct {
@@ -1112,8 +1112,12 @@ func TestVF_C09(t *testing.T) {
 	replay, isReplay := vfReplayCase()
 	seed := vfSeed()
 	idx := 0
-	for si, sch := range c09Schemes(seed, vfThorough()) {
-		groups := c09GenGroups(sch.Name, seed, vfThorough())
+	// thorough: three rounds, each with freshly keyed worlds (key-dependent orderings, flip positions and attacker keys differ)
+	rounds := vfPick(1, 3)
+	schemes := c09Schemes(seed, vfThorough())
+	for ri := 0; ri < rounds*len(schemes); ri++ {
+		si, sch := ri, schemes[ri%len(schemes)]
+		groups := c09GenGroups(sch.Name, seed+uint64(ri/len(schemes))*1000003, vfThorough())
 		lo := idx
 		for _, g := range groups {
 			for _, c := range g.Cells {
@@ -1127,7 +1131,7 @@ func TestVF_C09(t *testing.T) {
 		var w *c09World
 		var err error
 		for attempt := 0; attempt < 2; attempt++ {
-			w, err = c09BuildWorld(sch, 42000+100*si, c09WorldOpts{})
+			w, err = c09BuildWorld(sch, 42000+100*(si%50), c09WorldOpts{})
 			if err == nil {
 				break
 			}
